@@ -85,7 +85,10 @@ Definition beacon_rows : list row := [
   R 10 "beacon.PushManyFromMap (ordered)" LBeaconOrder Wr bmuX;
   R 11 "beacon.SortBy*"                  LBeaconOrder Wr bmuX;
   R 12 "beacon.Shift*|ReindexExpiration" LBeaconOrder Wr bmuX;
-  R 13 "beacon.GetManyFromOrderPosition|GetManyFromKey" LBeaconOrder Rd bmuS
+  R 13 "beacon.GetManyFromOrderPosition|GetManyFromKey" LBeaconOrder Rd bmuS;
+  R 14 "beacon.CountMatching (Cap pre-count)" LBeaconMap Rd bmuS;
+  R 15 "beacon.ShiftMatching|ShiftExpired|ShiftMany|ShiftOne|SelectExpired* (scan, Cap count, removal)" LBeaconMap Wr bmuX;
+  R 16 "beacon.Reset|SetIsOrdered"       LBeaconMap   Wr bmuX
 ].
 
 Definition treasure_rows : list row := [
@@ -108,7 +111,16 @@ Definition treasure_rows : list row := [
   R 41 "treasure.BodySetForDeletion (DeletedAt/By)" LDeleted Wr guardX;
   R 42 "treasure.GetDeletedAt|GetDeletedBy" LDeleted Rd tmuS;
   R 43 "treasure.Set* (change flags)"    LFlags      Wr guardX;
-  R 44 "treasure.Is*Changed (SaveFunction, under the caller's guard)" LFlags Rd ((KGuard, Excl) :: tmuS)
+  R 44 "treasure.Is*Changed (SaveFunction, under the caller's guard)" LFlags Rd ((KGuard, Excl) :: tmuS);
+  (* the subscriber callback of Gateway.SubscribeToEvents converts the LIVE record of a
+     New/Modified event (treasureToKeyValuePair); it runs on the writer's goroutine inside
+     SaveFunction, i.e. while the writer still owns the record guard *)
+  R 60 "event callback: treasure.GetContentType|GetContent*" LContent    Rd ((KGuard, Excl) :: tmuS);
+  R 61 "event callback: treasure.GetCreatedAt"     LCreatedAt  Rd ((KGuard, Excl) :: tmuS);
+  R 62 "event callback: treasure.GetCreatedBy"     LCreatedBy  Rd ((KGuard, Excl) :: tmuS);
+  R 63 "event callback: treasure.GetModifiedAt"    LModifiedAt Rd ((KGuard, Excl) :: tmuS);
+  R 64 "event callback: treasure.GetModifiedBy"    LModifiedBy Rd ((KGuard, Excl) :: tmuS);
+  R 65 "event callback: treasure.GetExpirationTime" LExpiration Rd ((KGuard, Excl) :: tmuS)
 ].
 
 Definition table : list row := beacon_rows ++ treasure_rows.
@@ -206,6 +218,7 @@ Definition torn_witness : list rwstep := [WSetValue 2; RGetValue; RGetBy; WSetBy
 Inductive c10case :=
 | CRace (a b : N)                 (* a data-race report whose two stacks map to rows a and b *)
 | CRead (value by_ : Z)           (* a reader received (value, updatedBy) *)
+| CEvent (value by_ : Z)          (* a subscriber received a New/Modified event carrying (value, updatedBy) *)
 | CQuiet (reads writes : N).      (* a child run finished; counters *)
 
 Definition find_row (id : N) : option row := find (fun r => N.eqb (r_id r) id) table.
@@ -222,6 +235,8 @@ Fixpoint pair_index (p : N * N) (l : list (N * N)) (i : N) : option N :=
    2 a reported race maps to a pair of rows that the table claims ordered by a lock or not
      conflicting (the table is wrong: correspondence failure);
    50 a read returned fields of two different versions;
+   51 an event carried fields of two different versions (the event record is converted under
+      the writer's guard, so unlike 50 this is not explained by the lock-free getters);
    100 + i: the race is the i-th predicted racy pair of the table *)
 Definition check_case (c : c10case) : N :=
   match c with
@@ -237,6 +252,7 @@ Definition check_case (c : c10case) : N :=
       | _, _ => 1%N
       end
   | CRead v b => if Z.eqb v b then 0%N else 50%N
+  | CEvent v b => if Z.eqb v b then 0%N else 51%N
   | CQuiet _ _ => 0%N
   end.
 
